@@ -568,8 +568,8 @@ class ndarray:
     def sum(self, axis=None, **kw): return np_sum(self, axis=axis, **kw)
     def mean(self, axis=None, **kw): return mean(self, axis=axis, **kw)
     def std(self, axis=None, **kw): return std(self, axis=axis, **kw)
-    def max(self, axis=None, **kw): return amax(self, axis=axis)
-    def min(self, axis=None, **kw): return amin(self, axis=axis)
+    def max(self, axis=None, **kw): return amax(self, axis=axis, **kw)
+    def min(self, axis=None, **kw): return amin(self, axis=axis, **kw)
     def argmax(self, axis=None): return argmax(self, axis=axis)
     def argmin(self, axis=None): return argmin(self, axis=axis)
     def any(self, axis=None): return np_any(self, axis=axis)
@@ -1080,6 +1080,15 @@ def sort(a, axis=-1):
 
 # ---------------------------------------------------------------------------- reductions
 
+def _keep(a, axis, res):
+    """re-insert the reduced axis with length 1 (keepdims=True)."""
+    a = _as_nd(a)
+    if axis is None:
+        return ndarray(_fill((1,) * a.ndim, [res]), scalar_tag(res))
+    r = res if isinstance(res, ndarray) else ndarray(_fill((), [res]), scalar_tag(res))
+    return ndarray(_np.expand_dims(r._a, axis if axis >= 0 else a.ndim + axis), r._tag)
+
+
 def _reduce(a, axis, f, tag, keep_scalar=True):
     a = _as_nd(a)
     if axis is None:
@@ -1103,7 +1112,7 @@ def _sum_list(xs, tag):
     return cast(acc, tag)
 
 
-def np_sum(a, axis=None, dtype=None, **kw):
+def np_sum(a, axis=None, dtype=None, keepdims=False, **kw):
     a = _as_nd(a) if a is not None else None
     if a is None:
         return None
@@ -1111,7 +1120,8 @@ def np_sum(a, axis=None, dtype=None, **kw):
     if tag in ('bool', 'uint8'):
         a = a.astype('int')
         tag = 'int'
-    return _reduce(a, axis, lambda xs: _sum_list(xs, tag), tag)
+    r = _reduce(a, axis, lambda xs: _sum_list(xs, tag), tag)
+    return _keep(a, axis, r) if keepdims else r
 
 
 def mean(a, axis=None, where=None, **kw):
@@ -1164,18 +1174,20 @@ def _min_list(xs):
     return acc
 
 
-def amax(a, axis=None, **kw):
+def amax(a, axis=None, keepdims=False, **kw):
     a = _as_nd(a)
     if a.size == 0:
         raise ValueError('zero-size array to reduction operation maximum which has no identity')
-    return _reduce(a, axis, _max_list, a._tag)
+    r = _reduce(a, axis, _max_list, a._tag)
+    return _keep(a, axis, r) if keepdims else r
 
 
-def amin(a, axis=None, **kw):
+def amin(a, axis=None, keepdims=False, **kw):
     a = _as_nd(a)
     if a.size == 0:
         raise ValueError('zero-size array to reduction operation minimum which has no identity')
-    return _reduce(a, axis, _min_list, a._tag)
+    r = _reduce(a, axis, _min_list, a._tag)
+    return _keep(a, axis, r) if keepdims else r
 
 
 
